@@ -67,26 +67,36 @@ func (c Case) desc() string {
 // and then demands consistency.
 var eitherCounts bool
 
-// advertised returns the delta locations the shape advertises.
-func advertised(shape string) (u []string, malformed bool) {
+// advertisedIdx returns, in advertised order, the indices of the delta
+// locations the shape advertises. The order is deliberately NOT the sorted one.
+func advertisedIdx(shape string) (u []int, malformed bool) {
 	switch shape {
 	case "uri1":
-		return []string{deltaURL(0)}, false
+		return []int{1}, false
 	case "uri2":
-		return []string{deltaURL(0), deltaURL(1)}, false
+		return []int{1, 0}, false
 	case "uri3":
-		return []string{deltaURL(0), deltaURL(1), deltaURL(2)}, false
+		return []int{2, 0, 1}, false
 	case "nonuri-dp-then-uri-dp":
-		return []string{deltaURL(0)}, false
+		return []int{0}, false
 	case "uri-after-nonuri":
 		if eitherCounts {
-			return []string{deltaURL(0)}, false
+			return []int{0}, false
 		}
 		return nil, false
 	case "malformed":
 		return nil, true
 	}
 	return nil, false
+}
+
+// advertised returns the delta locations the shape advertises.
+func advertised(shape string) (u []string, malformed bool) {
+	idx, mal := advertisedIdx(shape)
+	for _, k := range idx {
+		u = append(u, deltaURL(k))
+	}
+	return u, mal
 }
 
 func freshestRaw(shape string) []byte {
@@ -102,12 +112,9 @@ func freshestRaw(shape string) []byte {
 	switch shape {
 	case "absent":
 		return nil
-	case "uri1":
-		return pki.CDPDER([]string{deltaURL(0)})
-	case "uri2":
-		return pki.CDPDER([]string{deltaURL(0), deltaURL(1)})
-	case "uri3":
-		return pki.CDPDER([]string{deltaURL(0), deltaURL(1), deltaURL(2)})
+	case "uri1", "uri2", "uri3":
+		u, _ := advertised(shape)
+		return pki.CDPDER(u)
 	case "nonuri-dp-then-uri-dp":
 		return wrap(0x30, append(dp(dns), dp(uri(deltaURL(0)))...))
 	case "nonuri-only":
@@ -202,7 +209,7 @@ func (m *model) fetch() prediction {
 		m.baseFault = false
 		return prediction{err: true, log: log}
 	}
-	u, malformed := advertised(m.c.Shape)
+	u, malformed := advertisedIdx(m.c.Shape)
 	if malformed {
 		return prediction{err: true, log: log}
 	}
@@ -210,10 +217,10 @@ func (m *model) fetch() prediction {
 	delta := int64(-1)
 	if len(u) > 0 {
 		found := false
-		for j, loc := range u {
-			log = append(log, "GET "+loc)
-			if m.deltaFault[j] {
-				m.deltaFault[j] = false
+		for _, k := range u {
+			log = append(log, "GET "+deltaURL(k))
+			if m.deltaFault[k] {
+				m.deltaFault[k] = false
 				continue
 			}
 			delta, found = v+1, true
